@@ -117,12 +117,15 @@ def execute(prog):
     sgio_mode = cfg["transport"] == "sgio"
 
     def check_opens():
-        want = "w+b" if cfg["readwrite"] else "rb"
+        # read-write: a mode that allows reading and writing ('+'); read-only: no '+', 'w', 'a' or 'x'.  The exact spelling is the library's business
         for e in WORLD.events:
-            if e["kind"] == "vfs.open" and "hid" in e and e["mode"] != want and not e.get("_judged"):
+            if e["kind"] == "vfs.open" and "hid" in e and not e.get("_judged"):
                 e["_judged"] = True
-                V.append(dict(oracle="C15.open-mode", where="sgio", detail=str(e["mode"]),
-                              expected="device opened with mode %r" % want, actual="mode %r" % e["mode"]))
+                m = str(e["mode"])
+                ok = ("+" in m) if cfg["readwrite"] else not any(c in m for c in "+wax")
+                if not ok:
+                    V.append(dict(oracle="C15.open-mode", where="sgio", detail="rw=%d" % cfg["readwrite"],
+                                  expected="device opened %s" % ("for reading and writing" if cfg["readwrite"] else "read-only"), actual="mode %r" % m))
 
     def do_execute(op, scsi):
         WORLD.armed.clear()
@@ -177,9 +180,9 @@ def execute(prog):
             if st["post_replug"]:
                 # a replug was pending when this call started: exactly one fresh open on the current inode must have happened in it
                 ok_open = [e for e in opens if e.get("ino") == node.ino]
-                if len(ok_open) != 1 or len(opens) != 1:
+                if not ok_open or opens[-1].get("ino") != node.ino:
                     V.append(dict(oracle="C15.no-fresh-handle", where=where, detail="close-failed" if closes_failed else "replug",
-                                  expected="one fresh open of %s on inode %d during this execute" % (PATH, node.ino),
+                                  expected="a fresh open of %s on inode %d during this execute" % (PATH, node.ino),
                                   actual="%d open(s): %s; outcome %s" % (len(opens), [e.get("ino") for e in opens], "ok" if kind == "ok" else type(val).__name__)))
                 if closes_failed:
                     WORLD.probe("replug_and_close_fails")
@@ -191,9 +194,9 @@ def execute(prog):
                                   expected="command executes through the fresh handle", actual=repr(val)[:100]))
             else:
                 if opens:
-                    V.append(dict(oracle="C15.spurious-reopen", where=where, detail="no-replug",
-                                  expected="no re-open: the node was not replaced since the handle was opened", actual="%d open(s)" % len(opens)))
-                if not op.get("cc") and kind == "exc":
+                    # re-opening although the node was not replaced is wasteful but not forbidden by the property: counted, not judged
+                    WORLD.probe("reopen_without_replug")
+                if not op.get("cc") and kind == "exc" and not closes_failed:
                     V.append(dict(oracle="C15.command-fails", where=where, detail=type(val).__name__,
                                   expected="command executes (node unchanged)", actual=repr(val)[:100]))
         else:
